@@ -22,6 +22,7 @@ var tiers = map[string][3]int{
 	"C01": {300, 8000, 300},
 	"C19": {1500, 30000, 0},
 	"C13": {1500, 30000, 0},
+	"C20": {1500, 30000, 0},
 }
 
 func tierOf(id string, thorough bool) tierCfg {
@@ -81,5 +82,9 @@ func init() {
 	props["C13"] = propCfg{
 		Rule:        "a file of 1-7 declarations (local / global variable with an integer or string literal, global / local function, function t.f, function t:m, t.v = literal) each with no comment, a trailing comment, a leading block of 1-3 comment lines directly above, both, or a block separated by a blank line; comment text over ASCII, 2-byte (accented Latin, Cyrillic, Greek), CJK, astral and mixed alphabets; hover is asked at a use of every name. Oracle: the label contains the identifier, starts with `local` iff the declaration is local, contains the literal as written (integers, strings) and the parameter names in order; the documentation part is exactly the expected comment lines (trailing comment first, else the leading block, none when separated by a blank line), byte for byte. Non-trivial: a case with a commented declaration whose comment has a non-ASCII character; distinct by file text.",
 		Assumptions: append([]string{"don't-care: long-bracket comments as documentation, annotation comments, comment text starting with dashes/stars/space runs, float and boolean literals in the label, GBK-encoded sources"}, commonAssume...),
+	}
+	props["C20"] = propCfg{
+		Rule:        "valid programs from the grammar-directed generator in pattern mode: table constructors reuse keys (k / [\"k\"] / [1] / [\"1\"] / K), binary expressions repeat their left operand, use `or true` / `and false` / `or false` / float and integer literals on the right, elseif conditions repeat the if condition, assignments repeat their target list as value list, parameter lists repeat a name or use `_`, local declarations and assignments have more / fewer values than targets — all at random depths (closures, constructors, call arguments, conditions). Only checks 1, 5, 7, 8, 13-16, 19-21 are enabled. Oracle: an independent pattern matcher over the reference parser's syntax tree computes the multiset of (check, line); every documented instance must be reported and nothing may be reported where the pattern does not occur; shapes the documentation is silent about (redundant parentheses, constant on the left, calls/operators in a shortfall, three equal keys/params/conditions, non-d.d float spellings, bracket-vs-dot keys) are accepted either way and counted. Non-trivial: a program with >= 1 hard instance; distinct by text.",
+		Assumptions: append([]string{refluaAssume, "reports are matched by check number and start line of the reported range (exact columns are C04's subject)"}, commonAssume...),
 	}
 }
